@@ -519,6 +519,50 @@ def w_fall(direction: int, e: int, kind: int) -> str:
     return _fall_case(rt.sel(direction, 3), rt.sel(e, 4), rt.sel(kind, 6))
 
 
+def _form_case(where, top, alt, hk, fb):
+    """over C07's grid of entry locations x trash-dir states: whichever trash directory ends up holding the entry, the
+    Path written there follows THAT directory's rule (absolute in a home trash, relative to $topdir without '..' in
+    $topdir/.Trash/$uid and $topdir/.Trash-$uid) and designates the entry"""
+    from harness import c07
+    import posixpath
+    with rt.untraced():
+        rt.begin(('form', c07.WHERE[where], K.TOP_STATES[top], c07.ALT[alt], c07.HOMEK[hk], c07.FALLBACK[fb]))
+        world, step, env, fdir, fvol, tdpath, fallback = c07.scenario(where, top, alt, hk, 0, 0, fb)
+        m = W.build_model(world)
+        before = m.snap('/')
+        _, r = scen.run_model(None, [step], model=m)
+        after = m.snap('/')
+        label = 'file=%s:home=%s' % (c07.WHERE[where], c07.HOMEK[hk])
+        removed, added, changed = scen.delta(before, after)
+        for p, v in added.items():
+            if v[0] != 'f' or '/info/' not in p or not p.endswith('.trashinfo'):
+                continue
+            td = p[:p.rindex('/info/')]
+            ok, pth, date = scen.spec_parse_info(v[2])
+            if not ok:
+                return rt.fail('C03:layout:' + label, repr(v[2]))
+            base = posixpath.basename(td)
+            in_topdir = base.startswith('.Trash-') or posixpath.basename(posixpath.dirname(td)) == '.Trash'
+            if in_topdir:
+                topdir = posixpath.dirname(td) if base.startswith('.Trash-') else posixpath.dirname(posixpath.dirname(td))
+                if pth.startswith('/') or '/../' in '/' + pth + '/':
+                    return rt.fail('C03:topdir-path-not-relative:' + label, 'Path=%r written in %s' % (pth, td))
+                if posixpath.join(topdir, pth) != fdir.rstrip('/') + '/x':
+                    return rt.fail('C03:path-does-not-decode:' + label, 'Path=%r in %s designates %r, the entry was %r' % (pth, td, posixpath.join(topdir, pth), fdir + '/x'))
+            elif td.endswith('/Trash') and not pth.startswith('/'):  # (a directory reached through a symlinked name is not classified)
+                return rt.fail('C03:home-path-not-absolute:' + label, 'Path=%r written in %s' % (pth, td))
+        return rt.ok()
+
+
+def w_form(where: int, top: int, alt: int, hk: int, fb: int) -> str:
+    """
+    pre: PARTITION is None or where == PARTITION
+    pre: 0 <= where < 8 and 0 <= top < 3 and 0 <= alt < 5 and 0 <= hk < 7 and 0 <= fb < 2
+    post: _ == ''
+    """
+    return _form_case(rt.sel(where, 8), rt.of([0, 1, 2], top), rt.sel(alt, 5), rt.sel(hk, 7), rt.of([0, 3], fb))
+
+
 def w_bytes(i: int, layout: int, depth: int) -> str:
     """
     pre: PARTITION is None or layout == PARTITION
@@ -553,6 +597,8 @@ def obligations(tier):
         CH('W_every_byte_value', MOD, 'w_bytes', timeout=900, partitions=[0, 1, 2], engine='W', regime='selector',
            encodes=K.PUT_FUNCS + K.LIST_FUNCS, stubs=K.STUBS,
            bounds='names: every single byte 1..255 except "/" (0x80.. as undecodable bytes) + 30 special names incl. 255-byte names x 3 layouts x 3 depths (top level, two short components, six 240-byte CJK components: a .trashinfo of 4.4 KB)'),
+        CH('W_path_rule_over_locations_and_trash_dir_states', MOD, 'w_form', timeout=1200, partitions=list(range(8)), engine='W', regime='selector', encodes=K.PUT_FUNCS, stubs=K.STUBS,
+           bounds="C07's grid: 8 entry locations (incl. symlinks to a directory of another volume spelled with slashes) x 3 .Trash states x 5 .Trash-uid states x 7 home variants x fallback off / on"),
         CH('W_path_rule_after_candidate_fallthrough', MOD, 'w_fall', timeout=600, engine='W', regime='selector',
            encodes=K.PUT_FUNCS, stubs=K.STUBS + ['persistent errno on one directory'],
            bounds='3 fall-through directions (home->.Trash-uid, .Trash-uid->home fallback, .Trash/uid->.Trash-uid) x 4 errnos x 6 kinds'),
